@@ -13,7 +13,9 @@
 (*  - a functor is applied only to predicates it depends on;               *)
 (*  - annotations name existing predicates.                                *)
 (* prog additionally carries annpreds: Seq(name) - the predicates named by *)
-(* annotations.                                                            *)
+(* annotations, and reserved: Seq(name) - the variables of the program     *)
+(* whose names begin with the prefix x_ that the language reserves for the *)
+(* compiler (a lexical fact, supplied with the program).                   *)
 (***************************************************************************)
 EXTENDS LSem
 
@@ -190,7 +192,9 @@ LiveReach(pm, seen, frontier) ==
 
 (* The whole program is invalid (every query must be rejected) or only the  *)
 (* predicates that depend on an invalid rule are.                           *)
+ReservedVars(prog) == {prog.reserved[i] : i \in 1..Len(prog.reserved)}
 GloballyInvalid(prog) == BadAnnotations(prog) # {} \/ BadMakes(prog) # {}
+                         \/ ReservedVars(prog) # {}
 
 MustReject(prog, p) ==
   LET pm == PredMap(prog)
@@ -212,6 +216,7 @@ Offenders(prog, p) ==
      \cup InvalidPreds(prog)     \* any invalid predicate of the program is an offender
      \cup UNION {UNION {UnboundVars(pm[q].rules[i], ctx) : i \in 1..Len(pm[q].rules)} : q \in bad}
      \cup BadAnnotations(prog)
+     \cup ReservedVars(prog)
      \cup UNION {{prog.makes[k].name, prog.makes[k].functor}
                  \cup {prog.makes[k].args[i].k : i \in 1..Len(prog.makes[k].args)} : k \in BadMakes(prog)}
      \cup UNION {Range(prog.rec[k].members) : k \in NoBaseComps(prog)}
